@@ -92,7 +92,7 @@ def _record_complex(i):
     EoN = _G["EoN"]
     sts, rules, infl = complexc.MODELS[sc["complex"]]
     n = sc["n"]
-    cs = {"model": sc["complex"], "n": n, "statuses": sts, "adj": sc["adj"], "rules": rules, "infl": infl, "small": 0}
+    cs = {"model": sc["complex"], "n": n, "statuses": sts, "adj": sc["adj"], "rules": rules, "inflby": complexc._by(sts, infl), "small": 0}
     G = nx.Graph()
     G.add_nodes_from(range(1, n + 1))
     for u in range(n):
@@ -101,6 +101,9 @@ def _record_complex(i):
                 G.add_edge(u + 1, v + 1)
     rf, tc, gi = complexc.callbacks(cs, [], "list")
     IC = {u: sc["ic"][u - 1] for u in range(1, n + 1)}
+    if sc["seed"] % 3 == 0:      # an initial condition prepared for a larger population
+        for extra in range(n + 1, n + 4):
+            IC[extra] = sts[extra % len(sts)]
     idx = {s: k + 1 for k, s in enumerate(sts)}
     moves = []
     for r in rules:
@@ -142,6 +145,9 @@ def _record_generic(i):
           "induced": [{"a": a, "b": b, "c": c, "rate": r, "ew": sc["adj"]} for (a, b, c, r) in ind]}
     G, H, J, calls = contagion.build(cs)
     IC = {u: sc["ic"][u - 1] for u in range(1, n + 1)}
+    if sc["seed"] % 3 == 0:      # an initial condition prepared for a larger population
+        for extra in range(n + 1, n + 4):
+            IC[extra] = sts[extra % len(sts)]
     idx = {s: k + 1 for k, s in enumerate(sts)}
     moves = [[idx[a], idx[b], 0] for (a, b, r) in sp] + [[idx[b], idx[c], idx[a]] for (a, b, c, r) in ind]
     out = []
